@@ -87,8 +87,16 @@ def run(pid, tier, seed, replay=None):
             seen.add(key)
             c = s["cfg"]
             items.append({"id": len(items), "c": c, "expected": "ValueError" if c["strat"] == "groupby" and not c["contig"] else "ok", "pred": s["outcome"]})
-        recs = pmap(docconfig.run_one, items, chunk=4)
-        _judge(ctx, work, recs)
+        # encode and judge in batches; only the head of each event stream is kept afterwards (a thorough run
+        # holds tens of thousands of documents)
+        recs = []
+        for k0 in range(0, len(items), 2000):
+            part = pmap(docconfig.run_one, items[k0:k0 + 2000], chunk=4)
+            _judge(ctx, work, part)
+            for r in part:
+                r["nev"] = len(r["ev"])
+                r["ev"] = r["ev"][:8]
+            recs.extend(part)
         nd = 0
         notacc = 0
         for it, r in zip(items, recs):
@@ -108,7 +116,7 @@ def run(pid, tier, seed, replay=None):
         if len(ctx.extra["paths_covered"]) < 3 or ctx.extra["refusals_ValueError"] == 0:
             raise MachineryError("vacuity guard: paths %s, refusals %d" % (ctx.extra["paths_covered"], ctx.extra["refusals_ValueError"]))
         for r in recs[:2] + recs[-2:]:
-            ctx.sample({"cfg": r["cfg"], "outcome": r["c"]["outcome"], "events": len(r["ev"]), "first_events": r["ev"][:8]})
+            ctx.sample({"cfg": r["cfg"], "outcome": r["c"]["outcome"], "events": r["nev"], "first_events": r["ev"][:8]})
         ctx.rule = ("configurations generated by TLC from spec/DocConfig.tla: the reduced product (two values per dimension, exhaustive) and %d configurations drawn "
                     "by -simulate from the full product of 22 dimensions (path, strategy, header mode, rows, columns, component presence, as_table flags, placements, "
                     "paper, nrow, attribute shape, font size, cell kind, group_by contiguity, colour, sections); non-trivial = at least one data row" % PLAN[tier]["sim"])
